@@ -10,7 +10,7 @@
    reports, and non-vacuity examples. *)
 From QV.lib Require Import Prelude.
 From QV.model Require Import C05_Model.
-From QV.proof Require Import C05_Proofs.
+From QV.proof Require Import C05_Proofs C05_Proofs_Written.
 
 (* T1 binding invariant.  In EVERY state reachable from a freshly built reconstruction by any
    history of set_optimizer(+scheduler) / remove_optimizer / set constraints / iteration /
@@ -85,6 +85,25 @@ Print Assumptions C05_resume_equiv.
 Theorem C05_resume_equiv_as_written_refuted : ~ resume_equiv_statement true.
 Proof. exact resume_equiv_as_written_refuted. Qed.
 Print Assumptions C05_resume_equiv_as_written_refuted.
+
+(* ... but the code AS WRITTEN does resume correctly (reloaded copy and saved original) on the
+   domain where, at the interruption, the key order of every optimizer.state is the parameter
+   order (`aligned`: true whenever every parameter has received a gradient) *)
+Theorem C05_resume_equiv_as_written_aligned :
+  forall (V G M L R C SS : Type) (Rzero : R)
+         (forward : list (list (option V) * C) -> L * list (list (option G)))
+         (opt_update : opt_kind -> R -> V -> G -> option (pstate M) -> V * option (pstate M))
+         (sched_step : SS -> nat -> L -> R -> SS * R)
+         (g : gran) (dev : bool) (k n : nat) (s : st V M L R C SS),
+    binding_inv s -> aligned (run Rzero forward opt_update sched_step k s) -> rebinds g dev -> k <= n ->
+    obs (run Rzero forward opt_update sched_step (n - k)
+             (reload true g dev (run Rzero forward opt_update sched_step k s)))
+    = obs (run Rzero forward opt_update sched_step n s) /\
+    obs (run Rzero forward opt_update sched_step (n - k)
+             (snd (save true g (run Rzero forward opt_update sched_step k s))))
+    = obs (run Rzero forward opt_update sched_step n s).
+Proof. exact resume_equiv_as_written. Qed.
+Print Assumptions C05_resume_equiv_as_written_aligned.
 
 (* the object that was saved continues as if save() had not been called (save moves it to the
    CPU and back: two reconnects) *)
@@ -184,4 +203,19 @@ Example C05_nonvacuous_clone_equiv :
   = obs (Witness.run Witness.mask_all 3 Witness.s0) /\
   forallb (fun m => forallb (fun p => Nat.leb (hnext (hh Witness.s0)) p) (mparams m))
           (models (rc (clone false Witness.s0))) = true.
+Proof. vm_compute. split; reflexivity. Qed.
+
+(* the `aligned` hypothesis is satisfiable after real iterations (every parameter receives a
+   gradient), and the positional re-keying then resumes correctly *)
+Example C05_nonvacuous_as_written_aligned :
+  obs (Witness.run Witness.mask_all 2 (reload true Joint false (Witness.run Witness.mask_all 1 Witness.s0)))
+  = obs (Witness.run Witness.mask_all 3 Witness.s0) /\
+  map (fun m => match mopt m with
+                | Some o => match ho (hh (Witness.run Witness.mask_all 1 Witness.s0)) o with
+                            | Some ob => (map fst (ostate ob), oparams ob)
+                            | None => ([], [])
+                            end
+                | None => ([], [])
+                end) (models (rc (Witness.run Witness.mask_all 1 Witness.s0)))
+  = [([0; 1], [0; 1]); ([], [2])].
 Proof. vm_compute. split; reflexivity. Qed.
